@@ -165,8 +165,30 @@ class SimThreadPool(SimPoolBase):
     def _wait_any(self, futs):
         self._wait(futs, any_of=True)
 
+    def _forced_order(self):
+        """Enumerated mode: the tasks of this pool complete in the k-th
+        permutation (lexicographic) of their submission order."""
+        import itertools
+        import math
+        k = getattr(self.sim, "perm_index", None)
+        n = len(self.futures)
+        if k is None or n == 0:
+            return None
+        perms = itertools.permutations(range(n))
+        return list(next(itertools.islice(perms, k % math.factorial(n),
+                                          None)))
+
     def _wait(self, futs, any_of=False):
         sim = self.sim
+        order = self._forced_order()
+        if order is not None:
+            for i in order:
+                f = self.futures[i]
+                while not f.is_done:
+                    sim._switch_to(f.name, "pool.forced")
+                if any_of and any(x.is_done for x in futs):
+                    return
+            return
         guard = 0
         while (not any(f.is_done for f in futs)) if any_of else \
                 any(not f.is_done for f in futs):
@@ -235,10 +257,15 @@ class SimProcessPool(SimPoolBase):
     def _wait(self, futs, any_of=False):
         sim = self.sim
         pending = [f for f in self.futures if not f.is_done]
+        order = SimThreadPool._forced_order(self)
+        if order is not None:
+            pending = [self.futures[i] for i in order
+                       if not self.futures[i].is_done]
         # completion order of the worker processes is a decision
         while (not any(f.is_done for f in futs)) if any_of else \
                 any(not f.is_done for f in futs):
-            k = sim.dec.choose("complete", len(pending))
+            k = 0 if order is not None else \
+                sim.dec.choose("complete", len(pending))
             f = pending.pop(k)
             sim.ev("task-done", "p%dx%d" % (self.seq, f.idx))
             self._run_one(f)
